@@ -775,6 +775,14 @@ def w10(rep):
     if ep is None or ep["k"] != "UnaryOperator" or ep.get("op") != "&" or strip(ep["c"][0])["k"] != "DeclRefExpr":
         raise AnalysisBroken("arReadNumber: strtol end pointer is not `&local`")
     endp = strip(ep["c"][0])["n"]
+    # the scenario is a well-formed, non-negative number: a local holding strtol's result stands for one
+    par_ = common.parents(fn["body"])
+    value_env = {}
+    p_ = par_.get(call["id"])
+    while p_ is not None and p_["k"] in ("ParenExpr", "ImplicitCastExpr", "CStyleCastExpr"):
+        p_ = par_.get(p_["id"])
+    if p_ is not None and p_["k"] == "BinaryOperator" and p_["op"] == "=" and (strip(p_["c"][0]) or {}).get("k") == "DeclRefExpr":
+        value_env[strip(p_["c"][0])["n"]] = 160
 
     def lookup_for(v):
         def lookup(n, env):
@@ -792,7 +800,7 @@ def w10(rep):
             ce = cfg.cond_edges(b)
             if ce is None:
                 return True
-            val = peval(ce[0], {}, lk)
+            val = peval(ce[0], value_env, lk)
             if val is None:
                 return True
             return s_ == (ce[1] if val else ce[2])
